@@ -92,7 +92,7 @@ Proof. intros; apply existsb_app. Qed.
 Lemma exec_mop_cases : forall sh scr who il m rest g g' c',
   exec_mop sh scr who il m rest g = (g', c') ->
   (* append *)
-  (exists t, m = MQueue t /\ pending g' = pending g ++ [t] /\ log g' = log g ++ [ESub who t] /\
+  ((exists t, m = MQueue t /\ pending g' = pending g ++ [t] /\ log g' = log g ++ [ESub who t] /\
              evfd g' = evfd g /\ c' = MWakeTest :: rest /\ quit g' = quit g) \/
   (* anything else: queue untouched, no submission / batch execution logged *)
   (pending g' = pending g /\ subs (log g') = subs (log g) /\ execq (log g') = execq (log g) /\
@@ -102,31 +102,413 @@ Lemma exec_mop_cases : forall sh scr who il m rest g g' c',
    (m = MQuitStore -> c' = rest /\ quit g' = true /\ quit_called (log g') = true) /\
    (m = MQuitWake -> c' = rest /\ quit g' = quit g /\ (qwake sh il = true -> 0 < evfd g')) /\
    (m <> MQuitStore -> quit g' = quit g /\ quit_called (log g') = quit_called (log g)) /\
-   (il = false -> qtasks c' = qtasks rest)) /\
+   (il = false -> qtasks c' = qtasks rest))) /\
   calling g' = calling g /\ looping g' = looping g /\ (quit g = true -> quit g' = true) /\
   (quit_called (log g) = true -> quit_called (log g') = true).
 Proof.
   intros sh scr who il m rest g g' c' H. unfold exec_mop in H.
-  destruct m.
-  - injection H as <- <-. cbn. split; [left; exists t; repeat split; reflexivity|].
-    rewrite quit_called_app. cbn. rewrite orb_false_r. auto.
-  - destruct (wake sh il (calling g) (looping g)) eqn:W; injection H as <- <-; cbn;
-      (split; [right|]); rewrite ?subs_app, ?execq_app, ?quit_called_app; cbn; rewrite ?app_nil_r, ?orb_false_r;
-      repeat split; intros; try congruence; try discriminate; try lia; auto;
-      rewrite ?subs_by_app; cbn; rewrite ?app_nil_r; auto.
-  - destruct il; injection H as <- <-; cbn;
-      (split; [right|]); rewrite ?subs_app, ?execq_app, ?quit_called_app; cbn; rewrite ?app_nil_r, ?orb_false_r;
-      repeat split; intros; try congruence; try discriminate; try lia; auto;
-      rewrite ?subs_by_app; cbn; rewrite ?app_nil_r; auto.
-  - injection H as <- <-; cbn.
-    (split; [right|]); rewrite ?subs_app, ?execq_app, ?quit_called_app; cbn; rewrite ?app_nil_r, ?orb_true_r;
-      repeat split; intros; try congruence; try discriminate; try lia; auto;
-      rewrite ?subs_by_app; cbn; rewrite ?app_nil_r; auto.
-  - destruct (qwake sh il) eqn:W; injection H as <- <-; cbn;
-      (split; [right|]); rewrite ?subs_app, ?execq_app, ?quit_called_app; cbn; rewrite ?app_nil_r, ?orb_false_r;
-      repeat split; intros; try congruence; try discriminate; try lia; auto;
-      rewrite ?subs_by_app; cbn; rewrite ?app_nil_r; auto.
-  - injection H as <- <-; cbn.
-    (split; [right|]);
-      repeat split; intros; try congruence; try discriminate; try lia; auto.
+  destruct m;
+    [ | destruct (wake sh il (calling g) (looping g)) eqn:W | destruct il | | destruct (qwake sh il) eqn:W | ];
+    injection H as <- <-; cbn [pending evfd evq quit calling looping log].
+  1: { split; [left; exists t; repeat split; reflexivity|].
+       rewrite quit_called_app. cbn. rewrite orb_false_r. auto. }
+  all: (split; [right|]); unfold subs_by, subs, execq, qtasks, quit_called;
+    rewrite ?flat_map_app, ?existsb_app; cbn [flat_map existsb app]; rewrite ?app_nil_r, ?orb_false_r, ?orb_true_r;
+    repeat split; intros; try congruence; try discriminate; try lia; auto;
+    rewrite ?flat_map_app; cbn [flat_map app]; rewrite ?app_nil_r; auto.
+Qed.
+
+(* ---------------------------------------------------------------- the steps, relationally *)
+Inductive ctrl (sh : shape) (scr : scripts) (s : st) : label -> st -> Prop :=
+| c_enter : pc s = LPre -> lcode s = [] ->
+    ctrl sh scr s TLoop (mkSt (set_flags (sg s) (if resets sh then false else quit (sg s)) (calling (sg s)) true)
+                              LTest [] (fcode s))
+| c_test_quit : pc s = LTest -> quit (sg s) = true ->
+    ctrl sh scr s TLoop (mkSt (set_flags (sg s) (quit (sg s)) (calling (sg s)) false) LDone [] (fcode s))
+| c_test_go : pc s = LTest -> quit (sg s) = false ->
+    ctrl sh scr s TLoop (mkSt (sg s) LPoll [] (fcode s))
+| c_poll_wake : pc s = LPoll -> poll_ready (sg s) = true -> evq (sg s) = [] ->
+    ctrl sh scr s TLoop (mkSt (sg s) (LHandle (0 <? evfd (sg s))) [] (fcode s))
+| c_poll_ev : forall k r, pc s = LPoll -> evq (sg s) = k :: r ->
+    ctrl sh scr s TLoop
+         (mkSt (mkG (pending (sg s)) (evfd (sg s)) r (quit (sg s)) (calling (sg s)) (looping (sg s)) (log (sg s)))
+               (LHandle (0 <? evfd (sg s))) (expand_all true (scr k)) (fcode s))
+| c_spur : pc s = LPoll ->
+    ctrl sh scr s TSpur (mkSt (sg s) (LHandle (0 <? evfd (sg s))) [] (fcode s))
+| c_read : pc s = LHandle true ->
+    ctrl sh scr s TRead
+         (mkSt (mkG (pending (sg s)) 0 (evq (sg s)) (quit (sg s)) (calling (sg s)) (looping (sg s)) (log (sg s)))
+               (LHandle false) (lcode s) (fcode s))
+| c_drain : pc s = LHandle false -> lcode s = [] ->
+    ctrl sh scr s TLoop (mkSt (set_flags (sg s) (quit (sg s)) true (looping (sg s))) LSwap [] (fcode s))
+| c_swap : pc s = LSwap ->
+    ctrl sh scr s TLoop
+         (mkSt (mkG [] (evfd (sg s)) (evq (sg s)) (quit (sg s)) (calling (sg s)) (looping (sg s)) (log (sg s)))
+               (LRun (pending (sg s))) [] (fcode s))
+| c_next : forall t b, pc s = LRun (t :: b) -> lcode s = [] ->
+    ctrl sh scr s TLoop
+         (mkSt (mkG (pending (sg s)) (evfd (sg s)) (evq (sg s)) (quit (sg s)) (calling (sg s)) (looping (sg s))
+                    (log (sg s) ++ [EExecQ t]))
+               (LRun b) (expand_all true (scr t)) (fcode s))
+| c_end : pc s = LRun [] -> lcode s = [] ->
+    ctrl sh scr s TLoop (mkSt (set_flags (sg s) (quit (sg s)) false (looping (sg s))) LTest [] (fcode s)).
+
+Lemma step_cases : forall sh scr s lab s', step sh scr s lab = Some s' ->
+  (exists i m rest g' c', lab = TF i /\ nth_error (fcode s) i = Some (m :: rest) /\
+      exec_mop sh scr (S i) false m rest (sg s) = (g', c') /\
+      s' = mkSt g' (pc s) (lcode s) (upd (fcode s) i c')) \/
+  (exists m rest g' c', lab = TLoop /\ code_ctx (pc s) = true /\ lcode s = m :: rest /\
+      exec_mop sh scr 0 true m rest (sg s) = (g', c') /\ s' = mkSt g' (pc s) c' (fcode s)) \/
+  ctrl sh scr s lab s'.
+Proof.
+  intros sh scr [g p lc fc] lab s' H. unfold step in H. cbn [sg pc lcode fcode] in H.
+  destruct lab.
+  - destruct p as [ | | | [|] | | [|t b] | ]; destruct lc as [|m rest]; cbn in H; try discriminate;
+      try (destruct (exec_mop sh scr 0 true m rest g) as [g' c'] eqn:E; injection H as <-;
+           right; left; exists m, rest, g', c'; cbn; auto; fail);
+      right; right.
+    + injection H as <-. apply c_enter; reflexivity.
+    + destruct (quit g) eqn:Q; injection H as <-.
+      * pose proof (c_test_quit sh scr (mkSt g LTest [] fc) eq_refl Q) as X. cbn in X. rewrite Q in X. exact X.
+      * apply c_test_go; auto.
+    + destruct (quit g) eqn:Q; injection H as <-.
+      * pose proof (c_test_quit sh scr (mkSt g LTest (m :: rest) fc) eq_refl Q) as X. cbn in X. rewrite Q in X. exact X.
+      * apply (c_test_go sh scr (mkSt g LTest (m :: rest) fc)); auto.
+    + destruct (poll_ready g) eqn:R; [|discriminate]. destruct (evq g) eqn:Q; injection H as <-.
+      * apply c_poll_wake; auto.
+      * eapply (c_poll_ev sh scr (mkSt g LPoll [] fc)); auto.
+    + destruct (poll_ready g) eqn:R; [|discriminate]. destruct (evq g) eqn:Q; injection H as <-.
+      * apply c_poll_wake; auto.
+      * eapply (c_poll_ev sh scr (mkSt g LPoll (m :: rest) fc)); auto.
+    + injection H as <-. apply c_drain; auto.
+    + injection H as <-. apply (c_swap sh scr (mkSt g LSwap [] fc)); auto.
+    + injection H as <-. apply (c_swap sh scr (mkSt g LSwap (m :: rest) fc)); auto.
+    + injection H as <-. apply c_end; auto.
+    + injection H as <-. apply (c_next sh scr (mkSt g (LRun (t :: b)) [] fc)); auto.
+  - destruct p as [ | | | [|] | | | ]; try discriminate. injection H as <-. right; right.
+    apply (c_read sh scr (mkSt g (LHandle true) lc fc)); auto.
+  - destruct p; try discriminate. injection H as <-. right; right.
+    apply (c_spur sh scr (mkSt g LPoll lc fc)); auto.
+  - destruct (nth_error fc i) as [[|m rest]|] eqn:N; try discriminate.
+    destruct (exec_mop sh scr (S i) false m rest g) as [g' c'] eqn:E. injection H as <-.
+    left. exists i, m, rest, g', c'. auto.
+Qed.
+
+Lemma reach_ind_inv : forall sh scr s0 (P : st -> Prop),
+  P s0 -> (forall s lab s', P s -> step sh scr s lab = Some s' -> P s') ->
+  forall s, reach_t sh scr s0 s -> P s.
+Proof. intros sh scr s0 P H0 HS s R. induction R; eauto. Qed.
+
+(* ---------------------------------------------------------------- I1: accounting (exactly once, FIFO) *)
+Definition acct (s : st) : Prop :=
+  execq (log (sg s)) ++ batch (pc s) ++ pending (sg s) = subs (log (sg s)).
+
+Lemma acct_step : forall sh scr s lab s', acct s -> step sh scr s lab = Some s' -> acct s'.
+Proof.
+  intros sh scr s lab s' A H. unfold acct in *.
+  destruct (step_cases _ _ _ _ _ H) as [(i & m & rest & g' & c' & -> & N & E & ->) |
+                                        [(m & rest & g' & c' & -> & CC & LC & E & ->) | C]].
+  - cbn [sg pc]. destruct (exec_mop_cases _ _ _ _ _ _ _ _ _ E) as [[(t & -> & P & L & _) | (P & S1 & S2 & _)] _].
+    + rewrite P, L, subs_app, execq_app. cbn. rewrite app_nil_r, <- A, !app_assoc. reflexivity.
+    + rewrite P, S1, S2. exact A.
+  - cbn [sg pc]. destruct (exec_mop_cases _ _ _ _ _ _ _ _ _ E) as [[(t & -> & P & L & _) | (P & S1 & S2 & _)] _].
+    + rewrite P, L, subs_app, execq_app. cbn. rewrite app_nil_r, <- A, !app_assoc. reflexivity.
+    + rewrite P, S1, S2. exact A.
+  - inversion C; subst; cbn [sg pc set_flags pending log batch] in *;
+      match goal with H : pc s = _ |- _ => rewrite H in A; cbn [batch] in A end; try exact A.
+    + rewrite app_nil_r. exact A.
+    + rewrite execq_app, subs_app. cbn. rewrite app_nil_r, <- A, <- !app_assoc. reflexivity.
+Qed.
+
+Lemma acct_init : forall prefix progs, acct (init prefix progs).
+Proof. intros; reflexivity. Qed.
+
+Lemma acct_reach : forall sh scr prefix progs s, reach_t sh scr (init prefix progs) s -> acct s.
+Proof. intros sh scr prefix progs. apply reach_ind_inv; [apply acct_init|]. intros; eapply acct_step; eauto. Qed.
+
+(* ---------------------------------------------------------------- I2: flags per program point *)
+Definition flags_ok (s : st) : Prop :=
+  match pc s with
+  | LPre => calling (sg s) = false /\ looping (sg s) = false
+  | LSwap | LRun _ => calling (sg s) = true
+  | _ => True
+  end.
+
+Lemma flags_step : forall sh scr s lab s', flags_ok s -> step sh scr s lab = Some s' -> flags_ok s'.
+Proof.
+  intros sh scr s lab s' A H. unfold flags_ok in *.
+  destruct (step_cases _ _ _ _ _ H) as [(i & m & rest & g' & c' & -> & N & E & ->) |
+                                        [(m & rest & g' & c' & -> & CC & LC & E & ->) | C]].
+  - cbn [sg pc]. destruct (exec_mop_cases _ _ _ _ _ _ _ _ _ E) as (_ & Hc & Hl & _). rewrite Hc, Hl. exact A.
+  - cbn [sg pc]. destruct (exec_mop_cases _ _ _ _ _ _ _ _ _ E) as (_ & Hc & Hl & _). rewrite Hc, Hl. exact A.
+  - inversion C; subst; cbn; auto;
+      match goal with H : pc s = _ |- _ => rewrite H in A end; auto.
+Qed.
+
+Lemma flags_reach : forall sh scr prefix progs s, reach_t sh scr (init prefix progs) s -> flags_ok s.
+Proof.
+  intros sh scr prefix progs. apply reach_ind_inv; [cbn; auto|]. intros; eapply flags_step; eauto.
+Qed.
+
+(* ---------------------------------------------------------------- I3: no lost wake-up *)
+Definition is_quit_mop (m : mop) : bool := match m with MQuitStore | MQuitWake => true | _ => false end.
+Definition quits_only (l : list act) : bool := forallb (fun a => match a with AQuit => true | _ => false end) l.
+
+(* either the wake-up test also fires before loop() (repaired shape), or the code that runs
+   before loop() never queues *)
+Definition pre_ok (sh : shape) (s : st) : Prop :=
+  pc s = LPre -> wake_pre sh = true \/ forallb is_quit_mop (lcode s) = true.
+
+Definition NoStall (sh : shape) (s : st) : Prop :=
+  pending (sg s) = [] \/ 0 < evfd (sg s) \/ will_drain (pc s) = true \/ midwake sh s = true.
+
+Lemma wake_weak_foreign : forall sh c l, wake_weak sh = true -> wake sh false c l = true.
+Proof.
+  intros sh c l H. unfold wake_weak in H. repeat (apply andb_true_iff in H as [H ?]).
+  destruct c, l; assumption.
+Qed.
+Lemma wake_weak_calling : forall sh l, wake_weak sh = true -> wake sh true true l = true.
+Proof.
+  intros sh l H. unfold wake_weak in H. repeat (apply andb_true_iff in H as [H ?]).
+  destruct l; assumption.
+Qed.
+
+Lemma midwake_split : forall sh s, midwake sh s = true ->
+  existsb head_is_wake (fcode s) = true \/
+  (code_ctx (pc s) = true /\ head_is_wake (lcode s) = true /\ wake sh true (calling (sg s)) (looping (sg s)) = true).
+Proof.
+  intros sh s H. unfold midwake in H. apply orb_true_iff in H as [H|H]; [left; exact H|right].
+  apply andb_true_iff in H as [H H3]. apply andb_true_iff in H as [H1 H2]. auto.
+Qed.
+Lemma midwake_foreign : forall sh s, existsb head_is_wake (fcode s) = true -> midwake sh s = true.
+Proof. intros sh s H. unfold midwake. rewrite H. reflexivity. Qed.
+Lemma midwake_loop : forall sh s, code_ctx (pc s) = true -> head_is_wake (lcode s) = true ->
+  wake sh true (calling (sg s)) (looping (sg s)) = true -> midwake sh s = true.
+Proof. intros sh s H1 H2 H3. unfold midwake. rewrite H1, H2, H3. apply orb_true_r. Qed.
+
+Lemma pre_ok_step : forall sh scr s lab s', pre_ok sh s -> step sh scr s lab = Some s' -> pre_ok sh s'.
+Proof.
+  intros sh scr s lab s' A H. unfold pre_ok in *.
+  destruct (step_cases _ _ _ _ _ H) as [(i & m & rest & g' & c' & -> & N & E & ->) |
+                                        [(m & rest & g' & c' & -> & CC & LC & E & ->) | C]].
+  - exact A.
+  - cbn [pc lcode]. intros P. destruct (A P) as [W|Q]; [left; exact W|right].
+    rewrite LC in Q. cbn in Q. apply andb_true_iff in Q as [Q1 Q2].
+    destruct (exec_mop_cases _ _ _ _ _ _ _ _ _ E) as [[(t & -> & _) | (_ & _ & _ & _ & _ & _ & _ & H2 & H3 & _)] _];
+      [discriminate|].
+    destruct m; try discriminate; [destruct (H2 eq_refl) as [-> _]|destruct (H3 eq_refl) as [-> _]]; exact Q2.
+  - inversion C; subst; cbn [pc]; intros P; discriminate.
+Qed.
+
+Lemma nostall_step : forall sh scr s lab s', wake_weak sh = true -> lab <> TSpur ->
+  flags_ok s -> pre_ok sh s -> NoStall sh s -> step sh scr s lab = Some s' -> NoStall sh s'.
+Proof.
+  intros sh scr s lab s' WW NS FL PO A H. unfold NoStall in *.
+  destruct (step_cases _ _ _ _ _ H) as [(i & m & rest & g' & c' & -> & N & E & ->) |
+                                        [(m & rest & g' & c' & -> & CC & LC & E & ->) | C]].
+  - (* a foreign micro-op *)
+    cbn [sg pc].
+    destruct (exec_mop_cases _ _ _ _ _ _ _ _ _ E) as
+      [[(t & -> & P & L & EV & -> & _) | (P & _ & _ & _ & EV & NQ & HW & _)] (Hc & Hl & _)].
+    + right; right; right. apply midwake_foreign. cbn [fcode]. eapply existsb_upd_new; eauto.
+    + rewrite P. destruct A as [A|[A|[A|A]]]; auto; [right; left; lia|].
+      destruct m; try (exfalso; eapply NQ; reflexivity; fail).
+      * (* the wake-up itself *)
+        destruct (HW eq_refl) as (_ & _ & F). right; left. apply F. apply wake_weak_foreign; exact WW.
+      * destruct (midwake_split _ _ A) as [B|(B1 & B2 & B3)]; right; right; right.
+        -- apply midwake_foreign. cbn [fcode]. eapply existsb_upd; eauto. intros X; discriminate.
+        -- apply midwake_loop; cbn [pc lcode sg]; auto. rewrite Hc, Hl; exact B3.
+      * destruct (midwake_split _ _ A) as [B|(B1 & B2 & B3)]; right; right; right.
+        -- apply midwake_foreign. cbn [fcode]. eapply existsb_upd; eauto. intros X; discriminate.
+        -- apply midwake_loop; cbn [pc lcode sg]; auto. rewrite Hc, Hl; exact B3.
+      * destruct (midwake_split _ _ A) as [B|(B1 & B2 & B3)]; right; right; right.
+        -- apply midwake_foreign. cbn [fcode]. eapply existsb_upd; eauto. intros X; discriminate.
+        -- apply midwake_loop; cbn [pc lcode sg]; auto. rewrite Hc, Hl; exact B3.
+      * destruct (midwake_split _ _ A) as [B|(B1 & B2 & B3)]; right; right; right.
+        -- apply midwake_foreign. cbn [fcode]. eapply existsb_upd; eauto. intros X; discriminate.
+        -- apply midwake_loop; cbn [pc lcode sg]; auto. rewrite Hc, Hl; exact B3.
+  - (* a micro-op of the loop thread *)
+    cbn [sg pc].
+    destruct (exec_mop_cases _ _ _ _ _ _ _ _ _ E) as
+      [[(t & -> & P & L & EV & -> & _) | (P & _ & _ & _ & EV & NQ & HW & _)] (Hc & Hl & _)].
+    + (* queueInLoop on the loop thread: where are we? *)
+      unfold flags_ok in FL. unfold pre_ok in PO.
+      destruct (pc s) eqn:PC; try discriminate.
+      * destruct FL as [F1 F2]. destruct (PO eq_refl) as [W|Q].
+        -- right; right; right. apply midwake_loop; cbn [pc lcode sg head_is_wake]; auto.
+           rewrite Hc, Hl, F1, F2. exact W.
+        -- rewrite LC in Q. discriminate.
+      * right; right; left. reflexivity.
+      * right; right; right. apply midwake_loop; cbn [pc lcode sg head_is_wake]; auto.
+        rewrite Hc, FL. apply wake_weak_calling; exact WW.
+    + rewrite P.
+      assert (NL : head_is_wake (lcode s) = true -> m = MWakeTest).
+      { rewrite LC. destruct m; cbn; intros; try discriminate; reflexivity. }
+      destruct A as [A|[A|[A|A]]]; auto; [right; left; lia|].
+      destruct (midwake_split _ _ A) as [B|(B1 & B2 & B3)].
+      * right; right; right. apply midwake_foreign. exact B.
+      * rewrite (NL B2) in *. destruct (HW eq_refl) as (_ & _ & F). right; left. apply F. exact B3.
+  - (* control steps of the loop thread *)
+    inversion C; subst; cbn [sg pc set_flags pending evfd will_drain]; auto;
+      try (destruct A as [A|[A|[A|A]]]; auto;
+           [ match goal with H : pc s = _ |- _ => rewrite H in A; discriminate end
+           | destruct (midwake_split _ _ A) as [B|(B1 & B2 & B3)];
+             [ right; right; right; apply midwake_foreign; exact B
+             | match goal with H : lcode s = [] |- _ => rewrite H in B2; discriminate
+               | H : pc s = _ |- _ => rewrite H in B1; discriminate end ] ]; fail).
+Qed.
+
+Lemma quits_only_expand : forall l, quits_only l = true -> forallb is_quit_mop (expand_all true l) = true.
+Proof.
+  induction l as [|a l IH]; cbn; intros H; [reflexivity|].
+  apply andb_true_iff in H as [H1 H2]. destruct a; try discriminate. cbn. apply IH; exact H2.
+Qed.
+
+Lemma pre_ok_reach : forall sh scr prefix progs s,
+  wake_pre sh = true \/ quits_only prefix = true ->
+  reach_t sh scr (init prefix progs) s -> pre_ok sh s.
+Proof.
+  intros sh scr prefix progs s HP. revert s. apply reach_ind_inv.
+  - intros _. destruct HP as [W|Q]; [left; exact W|right]. cbn. apply quits_only_expand; exact Q.
+  - intros; eapply pre_ok_step; eauto.
+Qed.
+
+Theorem no_stall_reach : forall sh scr prefix progs s,
+  wake_weak sh = true -> wake_pre sh = true \/ quits_only prefix = true ->
+  reach sh scr (init prefix progs) s -> NoStall sh s.
+Proof.
+  intros sh scr prefix progs s WW HP R. induction R as [|s lab s' R IH NS H].
+  - left; reflexivity.
+  - eapply nostall_step; eauto.
+    + eapply flags_reach; apply reach_reach_t; eauto.
+    + eapply pre_ok_reach; eauto. apply reach_reach_t; eauto.
+Qed.
+
+Lemma nostall_quiescent : forall sh s, NoStall sh s -> quiescent s = true -> pending (sg s) = [].
+Proof.
+  intros sh s A Q. unfold quiescent in Q. apply andb_true_iff in Q as [Q Q3]. apply andb_true_iff in Q as [Q1 Q2].
+  destruct (pc s) eqn:PC; try discriminate.
+  destruct A as [A|[A|[A|A]]]; auto.
+  - unfold poll_ready in Q3. apply negb_true_iff, orb_false_iff in Q3 as [Q3 _].
+    apply Nat.ltb_ge in Q3. lia.
+  - rewrite PC in A; discriminate.
+  - destruct (midwake_split _ _ A) as [B|(B1 & _)]; [|rewrite PC in B1; discriminate].
+    rewrite (existsb_forallb_false _ head_is_wake (fun c => match c with [] => true | _ => false end)) in B;
+      [discriminate| |exact Q1].
+    intros [|? ?]; [reflexivity|discriminate].
+Qed.
+
+(* the refutation: any shape whose wake-up test is false for (loop thread, not calling, not
+   looping) has a reachable quiescent state with an unexecuted task (F-2) *)
+Definition stall_witness_prefix : list act := [AQueue 0].
+Definition stall_witness_labels : list label := [TLoop; TLoop; TLoop; TLoop].
+Definition stall_witness_state : st := mkSt (mkG [0] 0 [] false false true [ESub 0 0]) LPoll [] [].
+
+Lemma stall_witness_run : forall sh scr, wake_pre sh = false ->
+  run sh scr (init stall_witness_prefix []) stall_witness_labels = Some stall_witness_state.
+Proof.
+  intros sh scr W. unfold wake_pre in W. cbn. rewrite W. cbn. destruct (resets sh); reflexivity.
+Qed.
+
+Lemma stall_witness_reach : forall sh scr, wake_pre sh = false ->
+  reach sh scr (init stall_witness_prefix []) stall_witness_state /\
+  quiescent stall_witness_state = true /\ pending (sg stall_witness_state) <> [] /\
+  looping (sg stall_witness_state) = true.
+Proof.
+  intros sh scr W. split; [|repeat split; cbn; congruence].
+  eapply run_reach; [|apply stall_witness_run; exact W].
+  repeat constructor; discriminate.
+Qed.
+
+(* ---------------------------------------------------------------- per-thread program order *)
+Definition ptasks (p : list act) : list nat :=
+  flat_map (fun a => match a with AQueue t | ARun t => [t] | _ => [] end) p.
+Definition fq (i : nat) (s : st) : list nat :=
+  match nth_error (fcode s) i with Some c => qtasks c | None => [] end.
+Definition thr_acct (i : nat) (s : st) : list nat := subs_by (S i) (log (sg s)) ++ fq i s.
+
+Lemma qtasks_expand_false : forall p, qtasks (expand_all false p) = ptasks p.
+Proof.
+  induction p as [|a p IH]; [reflexivity|]. unfold expand_all in *. cbn [flat_map]. rewrite qtasks_app, IH.
+  destruct a; reflexivity.
+Qed.
+
+Lemma thr_acct_step : forall sh scr i s lab s', step sh scr s lab = Some s' -> thr_acct i s' = thr_acct i s.
+Proof.
+  intros sh scr i s lab s' H. unfold thr_acct, fq.
+  destruct (step_cases _ _ _ _ _ H) as [(j & m & rest & g' & c' & -> & N & E & ->) |
+                                        [(m & rest & g' & c' & -> & CC & LC & E & ->) | C]].
+  - cbn [sg fcode].
+    destruct (exec_mop_cases _ _ _ _ _ _ _ _ _ E) as
+      [[(t & -> & P & L & EV & -> & _) | (_ & _ & _ & SB & _ & NQ & _ & _ & _ & _ & QT)] _].
+    + rewrite L, subs_by_app. cbn [subs_by flat_map]. destruct (Nat.eq_dec j i) as [->|NE].
+      * rewrite (upd_nth_same _ _ _ _ _ N), N. cbn. rewrite Nat.eqb_refl. cbn. rewrite <- app_assoc. reflexivity.
+      * rewrite upd_nth_other by exact NE. cbn.
+        replace (j =? i) with false by (symmetry; apply Nat.eqb_neq; exact NE). cbn. rewrite app_nil_r. reflexivity.
+    + rewrite SB. f_equal. destruct (Nat.eq_dec j i) as [->|NE].
+      * rewrite (upd_nth_same _ _ _ _ _ N), N. rewrite (QT eq_refl).
+        destruct m; try reflexivity. exfalso; eapply NQ; reflexivity.
+      * rewrite upd_nth_other by exact NE. reflexivity.
+  - cbn [sg fcode].
+    destruct (exec_mop_cases _ _ _ _ _ _ _ _ _ E) as
+      [[(t & -> & P & L & _) | (_ & _ & _ & SB & _)] _].
+    + rewrite L, subs_by_app. cbn. rewrite app_nil_r. reflexivity.
+    + rewrite SB. reflexivity.
+  - inversion C; subst; cbn [sg fcode set_flags log]; try reflexivity.
+    rewrite subs_by_app. cbn. rewrite app_nil_r. reflexivity.
+Qed.
+
+Theorem thread_order_reach : forall sh scr prefix progs s i,
+  reach_t sh scr (init prefix progs) s ->
+  subs_by (S i) (log (sg s)) ++ fq i s = ptasks (nth i progs []).
+Proof.
+  intros sh scr prefix progs s i R. change (thr_acct i s = ptasks (nth i progs [])).
+  induction R as [|s lab s' R IH H].
+  - unfold thr_acct, fq, init. cbn [sg fcode log g0 subs_by flat_map app].
+    rewrite nth_error_map. destruct (nth_error progs i) eqn:N; cbn.
+    + rewrite qtasks_expand_false. erewrite nth_error_nth; eauto.
+    + rewrite nth_overflow; [reflexivity|]. apply nth_error_None; exact N.
+  - rewrite (thr_acct_step _ _ _ _ _ _ H). exact IH.
+Qed.
+
+(* ---------------------------------------------------------------- at most once *)
+Lemma count_execq_le_subs : forall s, acct s -> forall t,
+  count_occ Nat.eq_dec (execq (log (sg s))) t <= count_occ Nat.eq_dec (subs (log (sg s))) t.
+Proof. intros s A t. rewrite <- A, count_occ_app. lia. Qed.
+
+Lemma NoDup_app_l : forall A (a b : list A), NoDup (a ++ b) -> NoDup a.
+Proof.
+  induction a as [|x a IH]; cbn; intros b H; [constructor|].
+  inversion H; subst. constructor; [|eapply IH; eauto].
+  intros I. apply H2. apply in_or_app; left; exact I.
+Qed.
+
+Lemma nodup_execq : forall s, acct s -> NoDup (subs (log (sg s))) -> NoDup (execq (log (sg s))).
+Proof. intros s A N. rewrite <- A in N. eapply NoDup_app_l; exact N. Qed.
+
+(* ---------------------------------------------------------------- on the loop thread *)
+Definition execs (l : list ev) : list nat :=
+  flat_map (fun e => match e with EExecQ t | EExecI t => [t] | _ => [] end) l.
+
+Lemma foreign_never_executes : forall sh scr s i s', step sh scr s (TF i) = Some s' ->
+  execs (log (sg s')) = execs (log (sg s)).
+Proof.
+  intros sh scr s i s' H.
+  destruct (step_cases _ _ _ _ _ H) as [(j & m & rest & g' & c' & _ & N & E & ->) |
+                                        [(m & rest & g' & c' & X & _) | C]]; [|discriminate|inversion C].
+  cbn [sg]. unfold exec_mop in E.
+  destruct m; [ | destruct (wake sh false (calling (sg s)) (looping (sg s))) | | | destruct (qwake sh false) | ];
+    injection E as <- _; cbn [log]; unfold execs; rewrite ?flat_map_app; cbn [flat_map app]; rewrite ?app_nil_r; reflexivity.
+Qed.
+
+(* ---------------------------------------------------------------- runInLoop on the loop thread *)
+Lemma run_in_loop_sync_step : forall sh scr s t rest,
+  code_ctx (pc s) = true -> lcode s = MExec t :: rest ->
+  exists s', step sh scr s TLoop = Some s' /\
+    log (sg s') = log (sg s) ++ [EExecI t] /\ pending (sg s') = pending (sg s) /\
+    pc s' = pc s /\ lcode s' = expand_all true (scr t) ++ rest.
+Proof.
+  intros sh scr [g p lc fc] t rest CC LC. cbn in CC, LC. subst lc.
+  unfold step. cbn [sg pc lcode fcode].
+  destruct p as [ | | | [|] | | [|? b] | ]; try discriminate; cbn; eexists; split; try reflexivity; cbn; auto.
 Qed.
